@@ -1216,17 +1216,20 @@ class PipeOps(FullOps):
             self.interp.rebind(node.func.value, new, env, node)
             return NONE
         if name == "append" and lst.items is None:
-            # one more element after a loop-built list: keeps the order, extended by one trailing block
-            order = (order_src(lst.order) + ("then-last",), lst.order[1]) if lst.order is not None else None
-            new = ListV(items=None, elem=join(lst.elem, args[0]) if lst.elem is not None else args[0], kind=lst.kind, order=order)
-            if lst.elem is not None:
-                pt = lst.parts()
-                ln = tv_of(lst.length) if lst.length is not None else None
-                new = replace(new, head=pt[0] if pt else lst.elem, tail=(pt[1] if pt else ()) + (args[0],), tail_elem=new.elem,
-                              length=ln.but(poly=ln.poly + Poly.const(1), size_of=None) if ln is not None and ln.poly is not None else None)
-            self.interp.rebind(node.func.value, new, env, node)
+            self.interp.rebind(node.func.value, self.appended(lst, args[0]), env, node)
             return NONE
         return super().list_method(lst, name, args, kwargs, node, env)
+
+    def appended(self, lst, x):
+        """One more element after a loop-built (summarised) list, outside any summarised loop: keeps the order, extended by one trailing item that stays known."""
+        order = (order_src(lst.order) + ("then-last",), lst.order[1]) if lst.order is not None else None
+        new = ListV(items=None, elem=join(lst.elem, x) if lst.elem is not None else x, kind=lst.kind, order=order)
+        if lst.elem is not None:
+            pt = lst.parts()
+            ln = tv_of(lst.length) if lst.length is not None else None
+            new = replace(new, head=pt[0] if pt else lst.elem, tail=(pt[1] if pt else ()) + (x,), tail_elem=new.elem,
+                          length=ln.but(poly=ln.poly + Poly.const(1), size_of=None) if ln is not None and ln.poly is not None else None)
+        return new
 
     def pairwise_abstract(self, lst, node):
         """pairwise(accumulate(xs, initial=0)): the (sum before, sum including) pair of each element of xs."""
